@@ -71,7 +71,12 @@ def brute(case):
     E = [frozenset(_dec(x) for x in ms) for _, ms in case["net"]["edges"]]
     m, x = case["min_size"], case["exclude_min_size"]
     Eset = set(E)
-    subsets = [frozenset(c) for r in range(0, len(nodes) + 1) for c in itertools.combinations(nodes, r)]
+    if len(nodes) <= 12:
+        subsets = [frozenset(c) for r in range(0, len(nodes) + 1) for c in itertools.combinations(nodes, r)]
+    else:
+        # large inputs: every definition below only ever looks at node sets inside some edge, so the subsets of the edges
+        # (edges of the large inputs have <= 6 members) stand for "all node subsets"
+        subsets = list({frozenset(c) for e in E for r in range(0, len(e) + 1) for c in itertools.combinations(sorted(e, key=repr), r)} | {frozenset()})
     maximal = [e for e in E if not any(e < f for f in E)]
     faces = [e for e in maximal if len(e) >= m + int(x)]
     elig = [e for e in E if len(e) >= m + int(x)]
@@ -360,6 +365,23 @@ def shrink(case, site, cls):
         except Exception:  # noqa
             return False
     cur = json.loads(json.dumps(case))
+    # large inputs: drop blocks of edges (halves, quarters, ...) under a budget before the one-by-one pass
+    budget, block = 60, len(cur["net"]["edges"]) // 2
+    while len(cur["net"]["edges"]) > 24 and block >= 4 and budget > 0:
+        hit = False
+        for i in range(0, len(cur["net"]["edges"]), block):
+            c = json.loads(json.dumps(cur))
+            del c["net"]["edges"][i:i + block]
+            budget -= 1
+            if fails(c):
+                cur, hit = c, True
+                break
+            if budget <= 0:
+                break
+        if not hit:
+            block //= 2
+    if len(cur["net"]["edges"]) > 40:
+        return cur
     changed = True
     while changed:
         changed = False
@@ -406,12 +428,244 @@ def report(ctx, case, site, cls, detail):
 
 
 def py_replay(case):
-    n = case["net"]
+    n = {"nodes": [_dec(x) for x in case["net"]["nodes"]], "edges": [(_dec(e), [_dec(x) for x in ms]) for e, ms in case["net"]["edges"]]}
     return (f"import xgi; H=xgi.Hypergraph(); H.add_nodes_from({n['nodes']!r}); "
             f"[H.add_edge(ms, idx=e) for e, ms in {n['edges']!r}]; "
             f"print(xgi.simplicial_edit_distance(H,{case['min_size']},{case['exclude_min_size']},False), "
             f"xgi.simplicial_fraction(H,{case['min_size']},{case['exclude_min_size']}), "
             f"xgi.mean_face_edit_distance(H,{case['min_size']},{case['exclude_min_size']}))")
+
+
+# ----------------------------------------------------------------------------- predicate-only families (outside the Lean model)
+
+BIG = 2 ** 53
+
+
+def gen_large(rng):
+    """one LARGE hypergraph: 70-90 nodes labelled by ints (some negative, three consecutive ones above 2**53), 20-28 faces of
+    3-5 nodes drawn from overlapping windows, about 80% of their sub-faces, padded with random pairs to >= 130 distinct edges"""
+    k = rng.randint(70, 90)
+    lab = [BIG + 1, BIG + 2, BIG + 3] + [i - 10 for i in range(k - 3)]
+    rng.shuffle(lab)
+    seen, es = set(), []
+
+    def add(ms):
+        if frozenset(ms) not in seen:
+            seen.add(frozenset(ms)); es.append(list(ms))
+    faces = []
+    for _ in range(rng.randint(20, 28)):
+        a = rng.randrange(k)
+        win = [lab[(a + j) % k] for j in range(8)]
+        faces.append(rng.sample(win, rng.randint(3, 5)))
+    faces.append([BIG + 1, BIG + 2, BIG + 3, lab[0] if lab[0] < BIG else -9])
+    keep = rng.choice([0.6, 0.8, 0.95])
+    for f in faces:
+        add(f)
+        for r in range(1, len(f)):
+            for c in itertools.combinations(f, r):
+                if rng.random() < keep:
+                    add(list(c))
+    while len(es) < 130:
+        add(rng.sample(lab, 2))
+    for ms in es:
+        rng.shuffle(ms)
+    rng.shuffle(es)
+    return lab, [(i, ms) for i, ms in enumerate(es)]
+
+
+def gen_odd_labels(rng):
+    """orderable labels outside the Lean model (Atom = int | str): tuples of ints, floats incl. negative ones and -0.0,
+    ints mixed with floats; a random small hypergraph relabelled"""
+    nodes, edges = gen_random(rng, closed_bias=0.4, empty=0.05)
+    kind = rng.choice(["tuple", "tuple", "float", "int+float"])
+    pool = {"tuple": [(0, 1), (1, 0), (0,), (2, 2, 2), (-1, 5), (0, 1, 0), (1,), (3, 0)],
+            "float": [0.5, -1.5, 2.25, 1e3, -0.0, 3.0, -7.75, 1e-3],
+            "int+float": [0.5, -2, 2.25, 7, -0.5, 3, 10.0, -11]}[kind][:]
+    rng.shuffle(pool)
+    m = {json.dumps(n): pool[i] for i, n in enumerate(nodes)}
+    enc = lambda v: list(v) if isinstance(v, tuple) else v  # noqa
+    net = {"nodes": [enc(m[json.dumps(n)]) for n in nodes],
+           "edges": [[enc_id(e), [enc(m[json.dumps(x)]) for x in ms]] for e, ms in edges]}
+    return kind, net, edges
+
+
+def pred_only(ctx, cases, label):
+    """implementation + property predicate (brute-force definitions) only; nothing is sent to the Lean driver"""
+    for c in cases:
+        r = safe_impl(c)
+        ctx.evaluations += 1
+        ctx.stats["cases:" + label + " (predicate only)"] += 1
+        if r.get("out") == "ok" and r["sed_raw"] != "nan":
+            ctx.nontrivial.add(jhash([c, r]))
+        for site, cls, detail in pred(c, r):
+            report(ctx, c, site, cls, detail)
+
+
+# ----------------------------------------------------------------------------- held object (state across calls)
+
+FIVE = ["edit_simpliciality", "simplicial_edit_distance", "face_edit_simpliciality", "mean_face_edit_distance", "simplicial_fraction"]
+
+
+def _five(H, m, x):
+    """the five public functions on the object H under one option tuple; exceptions become outcomes"""
+    S = xgi.algorithms.simpliciality
+    out = {}
+    for name in FIVE:
+        for norm in ((True, False) if name in ("simplicial_edit_distance", "mean_face_edit_distance") else (None,)):
+            kw = {} if norm is None else {"normalize": norm}
+            try:
+                v = _f(getattr(S, name)(H, min_size=m, exclude_min_size=x, **kw))
+            except Exception as ex:  # noqa
+                v = "err:" + type(ex).__name__
+            out[name if norm is None else f"{name}(normalize={norm})"] = v
+    return out
+
+
+def _same5(a, b):
+    return a == b or (not isinstance(a, str) and not isinstance(b, str) and abs(a - b) <= TOL * max(1.0, abs(b)))
+
+
+def _held_edit(H, op):
+    if op[0] == "add":
+        H.add_edge([_dec(x) for x in op[1]])
+        return True
+    ms = frozenset(_dec(x) for x in op[1])
+    for e, mem in H.edges.members(dtype=dict).items():
+        if mem == ms:
+            if op[0] == "remove":
+                H.remove_edge(e)
+            elif op[0] == "grow":          # membership changes, the set of edge IDs (and all counts) stays
+                H.add_node_to_edge(e, _dec(op[2]))
+            elif op[0] == "shrink":
+                H.remove_node_from_edge(e, _dec(op[2]))
+            else:
+                return False
+            return True
+    return False
+
+
+def held_eval(case):
+    """ONE Hypergraph object H through: the five functions with option tuple A; again with option tuple B and with A; then after
+    each group of edits in case["stages"] (count-preserving: remove an edge + add another; ordinary: add an edge) with A and B.
+    Every value must equal the same call on a fresh H.copy().  returns ([(site, class, detail)], calls compared)"""
+    nodes = [_dec(n) for n in case["net"]["nodes"]]
+    edges = [(_dec(e), [_dec(x) for x in ms]) for e, ms in case["net"]["edges"]]
+    H = build(nodes, edges)
+    A, B = case["configs"][0], case["configs"][1]
+    fails, compared = [], 0
+
+    def against_fresh(stage, cls, cfgs):
+        nonlocal compared
+        for m, x in cfgs:
+            held = _five(H, int(m), bool(x))
+            ref = _five(H.copy(), int(m), bool(x))
+            for k in held:
+                compared += 1
+                if not _same5(held[k], ref[k]):
+                    fails.append((k.split("(")[0], cls, f"{stage}: {k} with min_size={m}, exclude_min_size={bool(x)} on the held object = {held[k]}, "
+                                  f"on a fresh copy = {ref[k]}"))
+    _five(H, int(A[0]), bool(A[1]))
+    against_fresh(f"second round of calls on the same hypergraph (first round used min_size={A[0]}, exclude_min_size={bool(A[1])})",
+                  "stale-result-other-options", [B, A])
+    for i, ops in enumerate(case.get("stages", [])):
+        done = [_held_edit(H, op) for op in ops]
+        if any(done):
+            against_fresh("after edit %d (%s)" % (i + 1, "; ".join("%s %s" % (op[0], op[1]) for op in ops)), "stale-result-after-edit", [A, B])
+    return fails, compared
+
+
+def gen_held(rng):
+    nodes, edges = gen_random(rng, closed_bias=0.5, empty=0.0)
+    if rng.random() < 0.3:
+        nodes, edges, _ = gen_big(rng)
+    if len(nodes) < 3 or not edges:
+        nodes, edges = closure([0, 1, 2, 3], [(0, [0, 1, 2]), (1, [2, 3])])
+    net = enc_net(nodes, edges)
+    A = rng.choice([(3, False), (3, False), (2, False), (1, False), (3, True)])
+    B = rng.choice([c for c in [(2, True), (2, True), (1, True), (1, False), (2, False), (3, True)] if c[0] != A[0]])
+    sets = [frozenset(map(json.dumps, ms)) for _, ms in net["edges"]]
+    stages = []
+    for _ in range(20):   # count-preserving: an existing edge goes, a node set that is not an edge comes
+        i = rng.randrange(len(net["edges"]))
+        new = rng.sample(net["nodes"], rng.randint(1, min(4, len(nodes))))
+        if frozenset(map(json.dumps, new)) not in sets:
+            stages.append([["remove", net["edges"][i][1]], ["add", new]])
+            break
+    for _ in range(20):
+        new = rng.sample(net["nodes"], rng.randint(2, min(4, len(nodes))))
+        if frozenset(map(json.dumps, new)) not in sets and not (stages and new == stages[0][1][1]):
+            stages.append([["add", new]])
+            break
+    # same edge IDs, other membership: a node joins an edge / leaves an edge of >= 2 members
+    cand = [(ms, n) for _, ms in net["edges"] for n in net["nodes"] if n not in ms]
+    if cand and rng.random() < 0.7:
+        ms, n = rng.choice(cand)
+        stages.insert(rng.randint(0, len(stages)), [["grow", ms, n]])
+    else:
+        cand = [ms for _, ms in net["edges"] if len(ms) >= 2]
+        if cand:
+            ms = rng.choice(cand)
+            stages.insert(rng.randint(0, len(stages)), [["shrink", ms, rng.choice(ms)]])
+    return {"f": "held", "net": net, "configs": [list(A), list(B)], "stages": stages}
+
+
+def held_py(case):
+    d = lambda ms: [_dec(x) for x in ms]  # noqa
+    find = lambda op: f"next(e for e, m in H.edges.members(dtype=dict).items() if m == set({d(op[1])!r}))"  # noqa
+    ops = "; ".join((f"H.add_edge({d(op[1])!r})" if op[0] == "add" else
+                     f"H.remove_edge({find(op)})" if op[0] == "remove" else
+                     f"H.add_node_to_edge({find(op)}, {_dec(op[2])!r})" if op[0] == "grow" else
+                     f"H.remove_node_from_edge({find(op)}, {_dec(op[2])!r})")
+                    for st in case.get("stages", []) for op in st)
+    (a, ax), (b, bx) = case["configs"]
+    return (f"import xgi; H=xgi.Hypergraph(); H.add_nodes_from({[_dec(n) for n in case['net']['nodes']]!r}); "
+            f"[H.add_edge(ms, idx=e) for e, ms in {[(_dec(e), d(ms)) for e, ms in case['net']['edges']]!r}]; "
+            f"f=lambda G,m,x: (xgi.edit_simpliciality(G,m,x), xgi.face_edit_simpliciality(G,m,x), xgi.simplicial_fraction(G,m,x)); "
+            f"f(H,{a},{bool(ax)}); print(f(H,{b},{bool(bx)}), f(H.copy(),{b},{bool(bx)})); {ops}; "
+            f"print(f(H,{a},{bool(ax)}), f(H.copy(),{a},{bool(ax)}), f(H,{b},{bool(bx)}), f(H.copy(),{b},{bool(bx)}))")
+
+
+def run_held(ctx, cases):
+    for case in cases:
+        try:
+            fails, compared = held_eval(case)
+        except Exception as ex:  # noqa  (construction or edit raised: counted, not a result of the five functions)
+            ctx.stats["held-object-sequence-raised:" + type(ex).__name__] += 1
+            continue
+        ctx.evaluations += 1
+        ctx.stats["held-object-sequences"] += 1
+        ctx.stats["held-object-calls-compared-with-fresh-copy"] += compared
+        seen = set()
+        for site, cls, detail in fails:
+            if (site, cls) in seen:
+                continue
+            seen.add((site, cls))
+
+            def still(c, site=site, cls=cls):
+                try:
+                    return any(s2 == site and c2 == cls for s2, c2, _ in held_eval(c)[0])
+                except Exception:  # noqa
+                    return False
+            small = json.loads(json.dumps(case))
+            _SHRUNK[("held", site, cls)] = _SHRUNK.get(("held", site, cls), 0) + 1
+            if _SHRUNK[("held", site, cls)] <= 3:
+                changed = True
+                while changed:
+                    changed = False
+                    for j in range(len(small["stages"]) - 1, -1, -1):
+                        c = json.loads(json.dumps(small)); del c["stages"][j]
+                        if still(c):
+                            small, changed = c, True
+                            break
+                    if changed:
+                        continue
+                    for j in range(len(small["net"]["edges"]) - 1, -1, -1):
+                        c = json.loads(json.dumps(small)); del c["net"]["edges"][j]
+                        if still(c):
+                            small, changed = c, True
+                            break
+                detail = next((d for s2, c2, d in held_eval(small)[0] if s2 == site and c2 == cls), detail)
+            ctx.violation(site, cls, dict(small, replay_py=held_py(small)), detail=detail)
 
 
 # ----------------------------------------------------------------------------- trie probe
@@ -455,7 +709,7 @@ def evaluate(ctx, cases, label, verbose=False):
         if repeated(c):
             ctx.stats["repeated-edge cases (correspondence only)"] += 1
         if c["min_size"] < 1:
-            ctx.stats["min_size=0 cases (correspondence only)"] += 1
+            ctx.stats["min_size=0 cases (informational comparison only)"] += 1
         else:
             sizes = sorted(len(ms) for _, ms in c["net"]["edges"])
             if r.get("out") == "ok" and sizes and sizes[-1] >= 2 and (r["sed_raw"] != "nan"):
@@ -488,7 +742,14 @@ def evaluate(ctx, cases, label, verbose=False):
         if verbose:
             print(json.dumps({"case": c, "impl": r, "model": mc, "brute": brute(c) if c["min_size"] >= 1 else None,
                               "predicate_failures": pred(c, r), "differs_from_model": d}, indent=1, default=repr))
-        if d:
+        if d and c["min_size"] < 1:
+            # min_size = 0 is outside the property (the statement's range clause is false there in the unchanged library):
+            # a difference between transcription and implementation on such an input is counted, never a broken tie
+            ctx.stats["min_size=0: transcription differs from implementation (informational, outside the property)"] += 1
+            ctx.extra.setdefault("min_size_0_differences", [])
+            if len(ctx.extra["min_size_0_differences"]) < 3:
+                ctx.extra["min_size_0_differences"].append({"request": c, "impl": r, "model": mc, "fields": d})
+        elif d:
             dis.append((c, r, mc, d))
             ctx.stats["disagree:impl-vs-transcription"] += 1
         d2 = model_vs_spec(c, mc)
@@ -539,7 +800,7 @@ def load_cases(path):
     if "configs" in j:
         return [{"f": "simpliciality", "net": j["net"], "min_size": int(m), "exclude_min_size": bool(x)} for m, x in j["configs"]]
     j = {k: v for k, v in j.items() if k not in ("replay_py", "comment")}
-    if j.get("f") not in ("simpliciality", "trie"):
+    if j.get("f") not in ("simpliciality", "trie", "held"):
         raise Infra(f"{path}: not a C15 case (f = {j.get('f')!r})")
     return [j]
 
@@ -561,14 +822,31 @@ def describe(ctx):
                 "<=6 nodes (edge size <=5, isolated nodes, int or str labels, shuffled node order, mixed edge IDs, 10% with an empty edge), 35% of them (partial) downward closures, "
                 "and 'big-face' inputs (1-3 faces of 4-7 nodes over 5-7 nodes with most sub-faces above a random size, often a closure with one sub-face "
                 "knocked out); x min_size 1..6 (weights 2:3:3:4:3:1, in 85% of the draws capped so that an eligible edge exists) x exclude_min_size x normalize; "
-                "plus repeated-edge and min_size=0 inputs for the correspondence only and direct Trie probes (shuffled words/queries vs set membership); "
+                "plus repeated-edge inputs for the correspondence only, min_size=0 inputs as an informational comparison (outside the property; a difference there "
+                "is counted in the statistics and never breaks the tie) and direct Trie probes (shuffled words/queries vs set membership); "
+                "PREDICATE ONLY (nothing sent to the driver): per run one LARGE hypergraph (70-90 int-labelled nodes incl. three consecutive labels above 2**53 and "
+                "negative ones, 130-300 distinct edges of <= 5 nodes: 20-28 overlapping faces with 60-95% of their sub-faces, padded with pairs) under two settings, "
+                "against the enumeration restricted to subsets of edges; 60 small hypergraphs relabelled with tuples of ints / floats (negative, -0.0) / ints mixed "
+                "with floats (built edge by edge with add_edge, never through the bulk constructor); "
+                "HELD-OBJECT sequences (implementation against itself): one Hypergraph H, the five public functions with option tuple A, then on the same H with "
+                "B (other min_size) and A again, then after a count-preserving edit (remove an edge, add a non-edge), after an added edge and after a membership change "
+                "that keeps the edge IDs (add_node_to_edge / remove_node_from_edge) with A and B; every "
+                "value must equal the same call on a fresh H.copy(); "
                 "non-trivial = distinct (input, result) with an edge of >= 2 members and an eligible maximal edge (sed not NaN); the share of cases whose "
                 "scores are NaN is reported in coverage.nan_share")
     ctx.assumptions = ["node labels all int or all str (Python's sorted() raises on mixed labels): mixed / non-orderable labels are outside the model and never generated",
                        "empty edges are inside the model, the theorems and the predicate (EdgeView.maximal treats an empty edge as contained in every edge "
                        "since fix 8eb4626; about 10% of the random inputs carry one)",
-                       "min_size >= 1 for the predicate and the theorems; min_size = 0 is checked for the correspondence implementation/transcription ONLY "
-                       "(with min_size = 0 the empty set is enumerated as a sub-face and counted once per non-adjacent maximal face; no definition is compared there)",
+                       "min_size >= 1 is the domain of the predicate, the theorems AND the correspondence; min_size = 0 is outside the property: the statement's own "
+                       "range clause is false there in the unchanged library (face_edit_simpliciality of the single edge ['a','b','c'] with min_size=0 is -0.1667; the "
+                       "empty set is enumerated as a sub-face and counted once per non-adjacent maximal face). The transcription is still run on min_size = 0 inputs "
+                       "and differences are counted (stats 'min_size=0: transcription differs ...', extra.min_size_0_differences) but they do not break the tie, so a "
+                       "rewrite that behaves differently only at min_size = 0 is not reported",
+                       "tuple and float node labels and the large hypergraphs are outside the Lean model (Atom = int | str; the Lean brute-force spec enumerates all "
+                       "node subsets): on them only the property predicate is evaluated on the implementation (Python enumeration; for the large ones over subsets of "
+                       "edges, which is what every clause quantifies over)",
+                       "held-object sequences compare the implementation with itself (held object vs fresh copy); a memo shared between different objects with equal "
+                       "content would be invisible there (the ordinary cases, each a fresh object, meet the enumeration and the model instead)",
                        "repeated edges (multi-edges): correspondence only, as the property statement excludes them (the theorems hold for them too)",
                        "iteration order of Python sets is not modelled: every consumer counts, collects into a set, or takes all()",
                        "CONVENTION ADOPTED FROM THE CODE: mean_face_edit_distance returns 0 (not NaN) when there is no eligible maximal edge, hence "
@@ -639,6 +917,23 @@ def run(ctx):
         cases += mk_cases(nodes, edges, [(0, rng.random() < 0.5)])
     for k in range(0, len(cases), 20000):
         dis += evaluate(ctx, cases[k:k + 20000], "random")
+    # REGIME: large hypergraphs (>= 70 nodes, >= 130 edges, labels above 2**53) - predicate only, the Lean brute-force spec
+    # enumerates all node subsets and cannot run there
+    big_cases = []
+    for i in range(ctx.n(1, 6)):
+        nodes, edges = gen_large(rng)
+        big_cases += mk_cases(nodes, edges, [(2, True), rng.choice([(1, False), (3, False), (2, False), (3, True)])])
+    pred_only(ctx, big_cases, "large")
+    # tuple / float / int+float node labels: orderable, but outside the Lean model - predicate only
+    odd = []
+    for i in range(ctx.n(60, 1500)):
+        kind, net, edges = gen_odd_labels(rng)
+        for m, x in dict.fromkeys(pick_cfg(rng, edges) for _ in range(2)):
+            odd.append({"f": "simpliciality", "net": net, "min_size": m, "exclude_min_size": x})
+        ctx.stats["labels:" + kind] += 1
+    pred_only(ctx, odd, "tuple/float labels")
+    # HELD OBJECT: one Hypergraph through two option tuples, a count-preserving edit and an added edge
+    run_held(ctx, [gen_held(rng) for _ in range(ctx.n(60, 1500))])
     bad = run_trie(ctx, trie_cases(ctx.rng, ctx.n(100, 3000)))
 
     def search():
@@ -681,6 +976,7 @@ def replay(ctx, path):
     tries = [c for c in cases if c["f"] == "trie"]
     dis = evaluate(ctx, simp, "replay", verbose=True) if simp else []
     bad = run_trie(ctx, tries) if tries else 0
+    run_held(ctx, [c for c in cases if c["f"] == "held"])
     conclude(ctx, ok and not bad and not any("spec differ" in b for b in ctx.broken), dis, None)
     describe(ctx)
     ctx.rule = f"replay of {os.path.relpath(os.path.abspath(path), VERIF)}: {len(cases)} case(s)"
